@@ -5,9 +5,10 @@ From Coq Require Import List ZArith Bool.
 Import ListNotations.
 From Zn.model Require Import Lexer Ast Parser.
 From Zn.proofs Require Import FrontCompleteProofs.
-From Zn.proofs Require ExprPrecProofs ExprPrecSpacesProofs ChainPrecProofs.
+From Zn.proofs Require ExprPrecProofs ExprPrecSpacesProofs ChainPrecProofs StmtNestProofs.
 Module EP := ExprPrecProofs.
 Module CP := ChainPrecProofs.
+Module SN := StmtNestProofs.
 Module EPS := ExprPrecSpacesProofs.
 Open Scope Z_scope.
 
@@ -88,6 +89,37 @@ Example C03_example_chain :                                  (* A#1 + B之C * D#
   = OTree (EP.one_expression (EArith 12 (CP.midx (EId [65]) (EId [49]))
                                         (EArith 14 (CP.mprop (EId [66]) [67]) (CP.midx (EId [68]) (EId [50]))))) [mkLine 0 0] 0.
 Proof. vm_compute. reflexivity. Qed.
+
+(* ---- statement nesting from indentation: whole programs ----
+   [SN.sstmt]: expression statements, 输出 e, 令 x = e, 每当 e： + block, 如果 e： + block with any number of 再如 e： blocks and an
+   optional 否则： block; blocks are non-empty lists of statements, nested to any depth; expressions are the chain fragment above.
+   [SN.print p] writes one statement per line (LF), four spaces per nesting level, single spaces between tokens.  For EVERY such
+   program, compiling the text — character-level lexer with its indentation counting and line table, then the whole parser —
+   yields exactly the prescribed tree [SN.prescribed p], the line table of the printed lines and the indentation type: a statement
+   belongs to the block of the nearest header above it with a smaller indentation, a dedent closes every block it leaves, 再如 /
+   否则 attach to the 如果 of their own indentation, the order of statements is kept. *)
+Theorem C03_statements_every_program : forall p, SN.prog_ok p = true ->
+  compile (default_fuel (SN.print p)) (SN.print p) = OTree (SN.prescribed p) (SN.line_table p) (SN.indent_type p) /\
+  compile_encode (SN.print p) = [[1; 0; 0; SN.indent_type p]; enc_lines (SN.line_table p); enc_program (SN.prescribed p)].
+Proof. intros p H. split; [exact (SN.compile_print_default p H) | exact (SN.compile_print_encode p H)]. Qed.
+Print Assumptions C03_statements_every_program.
+
+Theorem C03_statements_any_fuel : forall p fuel, SN.prog_ok p = true ->
+  compile fuel (SN.print p) = OFuel \/ compile fuel (SN.print p) = OTree (SN.prescribed p) (SN.line_table p) (SN.indent_type p).
+Proof. exact SN.compile_print_any_fuel. Qed.
+Print Assumptions C03_statements_any_fuel.
+
+(* token level: a block in any parser state, whatever follows it at a smaller indentation *)
+Theorem C03_block_tokens : forall b d F st st' acc, forallb SN.swf b = true -> (SN.bfuel b <= F)%nat ->
+  SN.lfeeds (SN.blines d b) st st' -> SN.endblk (Z.of_nat d) st' ->
+  exists b', parse F (NBlock (Z.of_nat d) acc) st = Ok (acc ++ map SN.sast b) (SN.setb st' b').
+Proof. exact SN.parse_block_tokens. Qed.
+Print Assumptions C03_block_tokens.
+
+Example C03_example_nesting :         (* 每当 A / 如果 B / 每当 C / D, then a dedent of two levels: E, then F at the top level *)
+  compile (default_fuel SN.ex_src1) SN.ex_src1
+  = OTree SN.ex_tree1 [mkLine 0 0; mkLine 1 7; mkLine 2 18; mkLine 3 33; mkLine 1 47; mkLine 0 53] GenFrontTokens.g_IndentSpace.
+Proof. exact SN.ex1_by_theorem. Qed.
 
 (* more fuel never changes an answer: for every production, state and pair of fuels *)
 Theorem C03_fuel_monotone : forall f g src, (f <= g)%nat -> compile f src = OFuel \/ compile f src = compile g src.
